@@ -3,10 +3,11 @@ import Driver.OpsFactor
 import Driver.OpsCPD
 import Driver.OpsGraph
 import Driver.OpsHistory
+import Driver.OpsLearn
 open Lean PgmVerif PgmVerif.Drv
 
 def handlers : List (String → Json → Option (Except String Json)) :=
-  [handleFactor, handleCPD, handleGraph, handleHistory]
+  [handleFactor, handleCPD, handleGraph, handleHistory, handleLearn]
 
 def handle (op : String) (j : Json) : Except String Json :=
   match handlers.findSome? (fun h => h op j) with
